@@ -9,6 +9,7 @@ import FlacModel.Spec.Rfc
 import FlacModel.Model.Readers
 import FlacModel.Model.Writers
 import FlacModel.Model.Md5
+import FlacModel.Model.Finalize
 
 open Flac
 
@@ -264,6 +265,100 @@ def opWr (f : Fields) (implHead : String) : String :=
   let md5 := Md5.md5 (blocks.flatten.flatMap (sampleBytes n false))
   s!"ok lens={if lens.isEmpty then "-" else ",".intercalate (lens.map toString)} total={lens.sum} md5={bytesToHex md5}"
 
+def seekPtStr : SeekPt → String
+  | .defined s b l => s!"{s}:{b}:{l}"
+  | .placeholder => "P"
+
+def intervalOf (s : String) : Option Interval :=
+  if s == "off" then none
+  else if s.startsWith "frames:" then (((s.drop 7).toString.toNat?).bind fun n => if n == 0 then none else some (.frames n))
+  else if s.startsWith "secs:" then (((s.drop 5).toString.toNat?).bind fun n => if n == 0 then none else some (.seconds n))
+  else some (.seconds 10)
+
+/-- what STREAMINFO / SEEKTABLE / PADDING must look like after finalize, predicted by the
+    bookkeeping model from the frame lengths and byte sizes observed in the finished file -/
+def opWrFinalize (f : Fields) (impl : Fields) : String :=
+  match hexToBytes (impl.get "file") with
+  | none => ""
+  | some file =>
+    match parseFileHead file with
+    | .error _ => ""
+    | .ok h =>
+      match allFrames (sinfoOf h.si) (file.length + 1) (file.drop h.framesStart) 0 with
+      | none => ""
+      | some frames =>
+        let offs := frames.map (·.off)
+        let ends := offs.drop 1 ++ [file.length - h.framesStart]
+        let sizes := List.zipWith (fun a b => b - a) offs ends
+        let rec_ := (List.zip (frames.map (·.len)) sizes).foldl (fun r p => r.encode p.1 p.2) Recorder.init
+        let bs := ((f.get "bs").toNat?).getD 4096
+        let rate := ((f.get "rate").toNat?).getD 44100
+        let ch := ((f.get "ch").toNat?).getD 1
+        let bps := ((f.get "bps").toNat?).getD 16
+        let iv := intervalOf (if f.get "seek" == "" then "default" else f.get "seek")
+        let unit := match f.get "fe" with | "byte" => ch * bytesPerSample bps | "chan" => 1 | _ => ch
+        let declared : Option Nat := ((f.get "total").toNat?).map (· / unit)
+        let tablePoints : Option Nat :=
+          match declared, iv with
+          | some t, some iv => some (min maxPoints (iv.filter rate (placeholders t bs (t + 1) 0)).length)
+          | _, _ => none
+        let padding : Option Nat :=
+          match (f.get "pad").toNat? with
+          | none => some 4096
+          | some 0 => none
+          | some p => some p
+        let (table, pad') := finalizeLayout iv rate rec_.points tablePoints padding
+        let tstr := match table with
+          | none => "none"
+          | some [] => "empty"
+          | some t => ",".intercalate (t.map seekPtStr)
+        let pstr := match pad' with | none => "-" | some p => toString p
+        s!" si_minbs={bs} si_maxbs={bs} si_minfs={rec_.minFrame} si_maxfs={rec_.maxFrame} seektable={tstr} pads={pstr} metalen={4 + 38 + layoutBytes table pad'}"
+
+/-- L0 walk of a finished file against its own header (C09 / C02 file level) -/
+def specCheckFile (file : List Nat) (pcm : List Int) (ch : Nat) : String :=
+  match parseFileHead file with
+  | .error e => s!"FAIL file-head {failStr e}"
+  | .ok h =>
+    let si := sinfoOf h.si
+    let rec walk (fuel : Nat) (bytes : List Nat) (off idx : Nat) (acc : List (Nat × Nat × Nat × List (List Int))) : Except String (List (Nat × Nat × Nat × List (List Int))) :=
+      match fuel with
+      | 0 => .ok acc.reverse
+      | fuel+1 =>
+        if bytes.isEmpty then .ok acc.reverse else
+        match Spec.specDecode (some si) bytes with
+        | .error e => .error s!"spec-rejects-frame-{idx} {failStr e}"
+        | .ok d =>
+          if d.frame.hdr.blocking then .error "variable-blocking-strategy"
+          else if d.frame.hdr.number != idx then .error s!"frame-number {d.frame.hdr.number} at index {idx}"
+          else walk fuel (bytes.drop d.used) (off + d.used) (idx + 1) ((off, d.used, d.frame.hdr.blockSize, d.channels) :: acc)
+    match walk (file.length + 1) (file.drop h.framesStart) 0 0 [] with
+    | .error e => "FAIL " ++ e
+    | .ok frames =>
+      let lens := frames.map (·.2.2.1)
+      let sizes := frames.map (·.2.1)
+      let total := lens.sum
+      let nonfinal := lens.dropLast
+      let allPcm := interleave ((List.range ch).map fun c => frames.flatMap fun fr => fr.2.2.2.getD c [])
+      let okSizes := sizes.filter (fun s => 0 < s && s < maxFrameSize)
+      let firsts := (lens.foldl (fun (acc : List Nat × Nat) l => (acc.1 ++ [acc.2], acc.2 + l)) ([], 0)).1
+      let triples := List.zip firsts (List.zip (frames.map (·.1)) lens)
+      let defined := (h.seektable.getD []).filterMap fun p => match p with | .defined s b l => some (s, b, l) | .placeholder => none
+      let afterFirstPlaceholder := ((h.seektable.getD []).dropWhile fun p => p != .placeholder)
+      if h.si.total != total then s!"FAIL streaminfo-total {h.si.total} vs {total}"
+      else if h.si.channels != ch then "FAIL streaminfo-channels"
+      else if nonfinal.any (· != h.si.maxBlock) then "FAIL nonfinal-block-size"
+      else if lens.any (· > h.si.maxBlock) then "FAIL block-exceeds-streaminfo"
+      else if h.si.minBlock != h.si.maxBlock then "FAIL streaminfo-min-max-block"
+      else if allPcm != pcm.take (pcm.length - pcm.length % ch) then "FAIL pcm-differs"
+      else if h.si.md5 != Md5.md5 (allPcm.flatMap (sampleBytes (bytesPerSample h.si.bps) false)) then "FAIL streaminfo-md5"
+      else if h.si.minFrame != (okSizes.foldl min (okSizes.headD 0)) then s!"FAIL streaminfo-min-frame-size {h.si.minFrame}"
+      else if h.si.maxFrame != (okSizes.foldl max 0) then s!"FAIL streaminfo-max-frame-size {h.si.maxFrame}"
+      else if defined.any (fun p => !(triples.any fun t => t.1 == p.1 && t.2.1 == p.2.1 && t.2.2 == p.2.2)) then "FAIL seekpoint-not-a-frame"
+      else if !(defined.zip (defined.drop 1)).all (fun pq => pq.1.1 < pq.2.1) then "FAIL seekpoints-not-ascending"
+      else if afterFirstPlaceholder.any (· != .placeholder) then "FAIL placeholder-before-defined"
+      else "ok"
+
 def runCase (line : String) : String :=
   let parts := line.splitOn "\t"
   let caseLine := parts.headD ""
@@ -275,7 +370,12 @@ def runCase (line : String) : String :=
   | "streamrw" => opStreamrw f impl implHead profile ++ " @@ -"
   | "encframe" => opEncframe f impl implHead profile
   | "hist" => opHist f ++ " @@ -"
-  | "wr" => opWr f implHead ++ " @@ -"
+  | "wr" =>
+    if implHead != "ok" || impl.get "file" == "" then "model-skip @@ -" else
+    let spec := match hexToBytes (impl.get "file") with
+      | some file => specCheckFile file (parseInts (f.get "pcm")) (((f.get "ch").toNat?).getD 1)
+      | none => "-"
+    opWr f implHead ++ opWrFinalize f impl ++ " @@ " ++ spec
   | _ => "model-skip @@ -"
 
 partial def loop (h : IO.FS.Stream) (out : IO.FS.Stream) : IO Unit := do
